@@ -1,7 +1,8 @@
-import Mutagen.Driver.Util
+import Mutagen.Driver.TransFS
 namespace Mutagen.Driver.C08
 
-/-- Model-side handler for one line of the C08 correspondence stream. -/
-def handle (_line : String) : String := "unimplemented"
+/-- Model-side handler for one line of the C08 correspondence stream: a
+transition scenario (see `Mutagen.Driver.TransFS`). -/
+def handle (line : String) : String := Mutagen.Driver.TransFS.handle line
 
 end Mutagen.Driver.C08
